@@ -6,6 +6,7 @@
     block:K    hold answers, write them out in blocks of K lines (and at end of input)
     readall    read all of stdin first, then answer everything
     echo       copy bytes as they arrive (like cat): partial lines are echoed
+    early      answer "<early>" to every line as soon as its first byte arrives
     stdio      default stdio buffering of a pipe (like `tr`/`sed` without -u)
   The answer to line L is "<" + L.upper() + ">" for eager/block/readall/stdio and L itself for echo.
   --log FILE   append every line received on stdin to FILE (what the child was given)
@@ -52,6 +53,24 @@ def main():
             i += 1
     fin = 0
     fout = 1
+    if mode == "early":
+        # exactly one answer line per input line, written as soon as the FIRST byte of the line arrives
+        at_start = True
+        while True:
+            data = os.read(fin, 65536)
+            if not data:
+                break
+            if log:
+                log.write(data)
+            out = b""
+            for i in range(len(data)):
+                if at_start:
+                    out += b"<early>\n"
+                at_start = data[i:i + 1] == b"\n"
+            off = 0
+            while off < len(out):
+                off += os.write(fout, out[off:])
+        sys.exit(code)
     if mode == "echo":
         while True:
             data = os.read(fin, 65536)
